@@ -740,12 +740,59 @@ fn decode_renderer(src: &mut Src, ctx: &mut Ctx) -> RCase {
 	RCase { ibs, ops }
 }
 
+/// A sound parameter linked to a modulator follows it from the sound's first audible frame, also
+/// when the sound has been waiting for a delayed start: nothing ramps in from a default value.
+fn waiting_sound_follows(ibs: usize, wait_chunks: f64, value: f64, db_lo: f64, streaming: bool) -> Result<(), Failure> {
+	use kira::sound::static_sound::{StaticSoundData, StaticSoundSettings};
+	let rate = 48000u32;
+	let mut mgr = default_manager(rate, ibs);
+	let tweener = mgr.add_modulator(TweenerBuilder { initial_value: value }).map_err(|_| Failure::simple("setup", "tweener"))?;
+	let volume: Value<kira::Decibels> = Value::FromModulator {
+		id: tweener.id(),
+		mapping: Mapping {
+			input_range: (0.0, 1.0),
+			output_range: (kira::Decibels(db_lo as f32), kira::Decibels(0.0)),
+			easing: Easing::Linear,
+		},
+	};
+	let delay = Duration::from_secs_f64(wait_chunks * ibs as f64 / rate as f64);
+	let _ = streaming;
+	let _h = mgr
+		.play(StaticSoundData {
+			sample_rate: rate,
+			frames: (0..64).map(|_| kira::Frame::from_mono(1.0)).collect::<Vec<_>>().into(),
+			settings: StaticSoundSettings::new().loop_region(..).volume(volume).start_time(kira::StartTime::Delayed(delay)),
+			slice: None,
+		})
+		.map_err(|_| Failure::simple("setup", "play"))?;
+	let want_db = db_lo + (0.0 - db_lo) * value.clamp(0.0, 1.0);
+	let want = if want_db <= -60.0 { 0.0 } else { 10f64.powf(want_db / 20.0) };
+	let mut audible = 0usize;
+	for k in 0..(wait_chunks.ceil() as usize + 4) {
+		let cb = mgr.backend_mut().callback(ibs, 2);
+		if let Some(p) = &cb.guard.panic {
+			return Err(Failure::panic("", p));
+		}
+		for i in 0..ibs {
+			let (l, _) = cb.frame(i, 2);
+			if l != 0.0 || audible > 0 {
+				audible += 1;
+				// (the first frames pass through the resampler's empty history)
+				if audible > 4 {
+					ensure!((l as f64 - want).abs() <= 1e-4 * want.max(1e-3), "linked-sound-parameter-follows-from-the-first-frame", "callback {k} frame {i} ({audible} frames after the sound became audible): output {l}, the linked volume maps the modulator's {value} to {want_db:.3} dB = {want}; internal buffer {ibs}, start delayed by {wait_chunks} buffers");
+				}
+			}
+		}
+	}
+	Ok(())
+}
+
 impl Property for C17 {
 	fn id(&self) -> &'static str {
 		"C17"
 	}
 	fn rule(&self) -> &'static str {
-		"two kinds of cases. (1) One LFO built through LfoBuilder and driven directly: four waveforms, frequencies 0..1e5 Hz, amplitudes and offsets of either sign, starting phases in radians, and a history of update steps interleaved with set_phase / set_waveform / set_frequency / set_amplitude / set_offset (with tweens); after every update the value must lie inside offset +- |amplitude| and equal offset + amplitude x shape(frac(phase/2pi + sum f dt)) from an independent description of the documented shapes (1e-6, not tested within 1e-6 of a waveform jump). (2) Through the renderer: tweeners, LFOs (optionally with their offset linked to another modulator) and probe modulators are added and dropped while probe effects whose parameter is linked to a modulator through a generated mapping (ranges, inverted ranges, all easings) record the parameter in every internal buffer; the parameter must equal the mapping of the modulator's value of the same buffer, hold its last value once the modulator is removed, and every probe modulator must be updated exactly once per internal buffer with dt = buffer / rate. Non-trivial = a non-sine waveform or a non-identity mapping, and (renderer cases) a modulator drop; distinct = distinct decoded choices. The tweener's own curve is checked in C06."
+		"two kinds of cases. (1) One LFO built through LfoBuilder and driven directly: four waveforms, frequencies 0..1e5 Hz, amplitudes and offsets of either sign, starting phases in radians, and a history of update steps interleaved with set_phase / set_waveform / set_frequency / set_amplitude / set_offset (with tweens); after every update the value must lie inside offset +- |amplitude| and equal offset + amplitude x shape(frac(phase/2pi + sum f dt)) from an independent description of the documented shapes (1e-6, not tested within 1e-6 of a waveform jump). (2) Through the renderer: tweeners, LFOs (optionally with their offset linked to another modulator) and probe modulators are added and dropped while probe effects whose parameter is linked to a modulator through a generated mapping (ranges, inverted ranges, all easings) record the parameter in every internal buffer; the parameter must equal the mapping of the modulator's value of the same buffer, hold its last value once the modulator is removed, and every probe modulator must be updated exactly once per internal buffer with dt = buffer / rate. One renderer case in eight also plays a DC sound whose volume is linked to a tweener and whose start is delayed by 2.5 .. 6.5 internal buffers: from its fifth audible frame on the output must be the mapped gain (1e-4), nothing ramps in from the default. Non-trivial = a non-sine waveform or a non-identity mapping, and (renderer cases) a modulator drop; distinct = distinct decoded choices. The tweener's own curve is checked in C06."
 	}
 	fn assumptions(&self) -> Vec<String> {
 		vec![
@@ -777,6 +824,10 @@ impl Property for C17 {
 			ctx.describe(|| format!("{case:?}"));
 			let (dropped, nonidentity) = renderer_case(&case)?;
 			let mut classes = vec!["through-renderer"];
+			if src.chance(1, 8) {
+				waiting_sound_follows(src.pick(&[64usize, 16, 128, 8]), src.pick(&[2.5f64, 3.0, 6.5, 4.2]), src.pick(&[0.25f64, 0.5, 0.9, 0.0]), src.pick(&[-20.0f64, -40.0, -6.0]), false)?;
+				classes.push("sound-parameter-linked-while-waiting");
+			}
 			if dropped {
 				classes.push("modulator-dropped");
 			}
